@@ -149,3 +149,31 @@ C("c16-writer", "C16", AP, "        realm = self._encode_realm(realm)\n        r
 C("c16-verify-roles", "C16", AP, "return htdigest.verify(password, hash, user, realm, encoding=self.encoding)", "return htdigest.verify(password, hash, realm, user, encoding=self.encoding)", "C16.e")
 C("c16-shim", "C16", AP, "        if hash is _UNSET:\n            # called w/ two args - (user, hash), use default realm\n            realm, hash = None, realm", "        if hash is _UNSET:\n            # called w/ two args - (user, hash), use default realm\n            realm, hash = realm, None", "C16.g")
 C("c16-mtime", "C16", AP, "            self.save(self._path)\n            self._mtime = os.path.getmtime(self._path)", "            self.save(self._path)", "C16.d")
+
+# ---- C10
+C("c10-revert-F11", "C10", CTX, '                # NOTE: repr() is the shortest string that parses back to the same float\n                value = repr(value) if value else "0"', '                value = (f"{value:.2f}").rstrip("0") if value else "0"', "C10.d", "revert of fix 7c24aff")
+C("c10-early-store", "C10", CTX, "        config = _CryptConfig(source)\n        self._config = config", "        self._get_record = None\n        config = _CryptConfig(source)\n        self._config = config", "C10.a")
+C("c10-reset-early", "C10", CTX, "            tmp = source\n            source = dict(self._config.iter_config(resolve=True))", "            tmp = source\n            self._reset_dummy_verify()\n            source = dict(self._config.iter_config(resolve=True))", "C10.a")
+C("c10-no-rebind", "C10", CTX, "        self._get_record = config.get_record\n", "", "C10.a")
+C("c10-no-resolve", "C10", CTX, "            source = dict(self._config.iter_config(resolve=True))\n            source.update(tmp)", "            source = dict(self._config.iter_config())\n            source.update(tmp)", "C10.a")
+C("c10-strip-switch", "C10", CTX, "        if config.context_kwds:\n            # (re-)enable method for this instance (in case ELSE clause below ran last load).\n            self.__dict__.pop(\"_strip_unused_context_kwds\", None)\n        else:", "        if not config.context_kwds:", "C10.a", "placeholder")
+CONTROLS.pop()
+C("c10-foreign-writer", "C10", CTX, "    def _reset_dummy_verify(self):", "    def _drop(self):\n        self._config = None\n\n    def _reset_dummy_verify(self):", "C10.b")
+C("c10-share-list", "C10", CTX, "                    if isinstance(value, list):\n                        value = list(value)\n", "", "C10.c")
+C("c10-parse-context", "C10", CTX, '        if scheme == "context":\n            scheme = None', '        if scheme == "all":\n            scheme = None', "C10.d")
+C("c10-percent", "C10", CTX, '        return value.replace("%", "%%")', "        return value", "C10.d")
+C("c10-update-mutates", "C10", CTX, "            tmp = source\n            source = dict(self._config.iter_config(resolve=True))\n            source.update(tmp)", "            tmp = source\n            source = self._config._source\n            source.update(tmp)", "C10.a")
+
+# ---- C04
+DES = "passlib/handlers/des_crypt.py"
+C("c04-revert-F4", "C04", DES, "        rounds |= 1\n        # don't step past the configured upper bound (the hash would be flagged\n        # by needs_update() right away); use the odd value below it instead.\n        mx = cls.max_desired_rounds or cls.max_rounds\n        if mx and rounds > mx and rounds - 2 >= max(cls.min_desired_rounds or 0, cls.min_rounds):\n            rounds -= 2\n        return rounds\n", "        return rounds | 1\n", "C04.d", "revert of fix 6d7c1cc")
+C("c04-category-dropped", "C04", CTX, "            return True, self.hash(secret, category=category, **kwds)", "            return True, self.hash(secret, **kwds)", "C04.b")
+C("c04-pred-differs", "C04", CTX, "        return record.deprecated or record.needs_update(hash, secret=secret)", "        return record.needs_update(hash, secret=secret)", "C04.b")
+C("c04-last-match", "C04", CTX, "            if record.identify(hash):\n                return record\n", "            if record.identify(hash):\n                found = record\n", "C04.a")
+C("c04-flag-ge", "C04", UH, "        if max_desired_rounds and self.rounds > max_desired_rounds:\n            return True", "        if max_desired_rounds and self.rounds >= max_desired_rounds:\n            return True", "C04.c")
+C("c04-overlay-order", "C04", CTX, "        other = get_optionmap(scheme, None)\n        kwds.update(other)", "        other = get_optionmap(scheme, None)\n        other = dict(other, **kwds)\n        kwds.update(other)", "C04.e", "placeholder")
+CONTROLS.pop()
+C("c04-expand-settings", "C04", CTX, "            setting_kwds += uh.HasRounds.using_rounds_kwds", "            setting_kwds = uh.HasRounds.using_rounds_kwds", "C04.e")
+C("c04-auto", "C04", CTX, "                return scheme != self.default_scheme(cat)", "                return scheme != self.default_scheme(None)", "C04.e")
+C("c04-libpass-cost", "C04", "libpass/context.py", "        return all(not scheme.identify(hash) for scheme in schemes)", "        return all(scheme.needs_update(hash) for scheme in schemes)", "C04.f")
+C("c04-libpass-default", "C04", "libpass/context.py", "        return self._schemes[0]", "        return self._schemes[-1]", "C04.f")
